@@ -4,6 +4,7 @@ check of the properties given (default: the one in meta.json), restores /repo an
 was detected.  Usage: python3 seeded_eval.py <seed-id> [--tier thorough] [--props C08,C02]"""
 import sys, os, json, subprocess, time
 VERIF = os.path.dirname(os.path.abspath(__file__))
+REPO = os.environ.get("VERIF_REPO", "/repo")
 def main():
     sid = sys.argv[1]
     tier = "quick"; props = None
@@ -15,10 +16,10 @@ def main():
     d = os.path.join(VERIF, "seeded", sid)
     meta = json.load(open(os.path.join(d, "meta.json")))
     props = props or [meta["property"]]
-    st = subprocess.run(["git", "-C", "/repo", "status", "--porcelain"], capture_output=True, text=True).stdout
+    st = subprocess.run(["git", "-C", REPO, "status", "--porcelain"], capture_output=True, text=True).stdout
     if st.strip():
-        print("refusing: /repo has uncommitted changes:\n" + st); return 2
-    r = subprocess.run(["git", "-C", "/repo", "apply", os.path.join(d, "patch.diff")], capture_output=True, text=True)
+        print("refusing: the repository has uncommitted changes:\n" + st); return 2
+    r = subprocess.run(["git", "-C", REPO, "apply", os.path.join(d, "patch.diff")], capture_output=True, text=True)
     if r.returncode != 0:
         print("patch does not apply:", r.stderr); return 2
     res = {}
@@ -30,8 +31,8 @@ def main():
             res[p] = {"exit": out.returncode, "violations": viol, "wall_s": round(time.time() - t0, 1)}
             print(p, "exit", out.returncode, viol[:2], f"{time.time()-t0:.0f}s")
     finally:
-        subprocess.run(["git", "-C", "/repo", "checkout", "--", "."])
-        subprocess.run(["git", "-C", "/repo", "clean", "-fdq"])
+        subprocess.run(["git", "-C", REPO, "checkout", "--", "."])
+        subprocess.run(["git", "-C", REPO, "clean", "-fdq"])
     print(json.dumps({"seed": sid, "tier": tier, "results": res}))
     ev = os.path.join(d, "eval.json")
     allr = json.load(open(ev)) if os.path.exists(ev) else {}
